@@ -22,7 +22,7 @@ from tensora.format import Mode
 from . import kx, space
 from .common import cap_findings, too_many
 from .refmodel import reference, support
-from .rt import raw_decode, tensor_from_structure
+from .rt import raw_decode, raw_image, tensor_from_structure
 from .tensors import fmt_str, parse_fmt
 
 
@@ -109,7 +109,10 @@ def work(unit):
                                           f"expected {float(exp.get(c0, 0))}")
                     continue
                 sup = support(prog, {n: set(env[n]) for n in env}, DIM)
-                ph = kx.phantom_prefixes(list(stored), sup, ofmt)
+                _d, _m, ordering, levels, _v = raw_image(res)
+                level_sets = kx.level_prefixes([None if lv is None else (list(lv[0]), list(lv[1])) for lv in levels],
+                                               [odims[o] for o in ordering])
+                ph = kx.phantom_prefixes(list(stored), sup, ofmt, level_sets)
                 if ph:
                     add(["C03"], "phantom", f"stores unsupported coordinate prefix {ph[0][1]} at level {ph[0][0]}")
                 stats["calls agreeing with the reference"] += 1
